@@ -270,6 +270,12 @@ func (cmd *mainCmd) Run(args []string) error {
 	if err != nil {
 		return fmt.Errorf("getwd: %w", err)
 	}
+	// $PWD may name the current directory through a symbolic link. The walk
+	// over a directory does not follow links, not even for its root: "."
+	// would name nothing at all.
+	if resolved, err := filepath.EvalSymlinks(cwd); err == nil {
+		cwd = resolved
+	}
 
 	files, err := findFiles(cwd, opts.Args.Patterns)
 	if err != nil {
